@@ -465,6 +465,150 @@ def _mentions(t, kind):
     return any(_mentions(x, kind) for x in t.get('a', []))
 
 
+# --------------------------------------------------------------------------- the route by which a dump setting reaches a class
+# The stream above configures a class through its inner Meta (or a Meta bound to a plain class), which registers the setting on
+# the dumper that was created for that class.  The documented alternatives reach the class through dumper-class *inheritance*:
+#   own-dumper  the class is its own dumper (`class C(JSONWizard, DumpMixin)` - docs/advanced_usage/type_hooks.rst -, mix-ins before
+#               or after the wizard base), so its inner Meta is bound to the class itself while the class is being created;
+#   global      a Meta declared at module level ("global settings that will apply to all JSONSerializable sub-classes") is bound to
+#               the root dumper; every class - wizard or plain, defined before or after the declaration, not used yet - takes the
+#               settings it does not set itself (nor receives from its main class) from there.
+# A global Meta changes the library for the rest of the process, so each such case runs in a forked child.
+GLOBAL_META_SETTINGS = [('marshal_date_time_as', ['TIMESTAMP'] * 5 + ['ISO_FORMAT'], 0.75), ('key_transform_with_dump', gen.CASES, 0.4),
+                        ('skip_defaults', [True, True, False], 0.3)]
+
+
+def make_route_case(rng):
+    o = gen.Opts(**TEMPORAL_OPTS)
+    ty = gen.gen_cls(rng, rng.choice([0, 1, 1, 2]), o)
+    infos = {}
+    model._collect_infos(ty, infos)
+    if rng.random() < 0.45:
+        if ty['info'].get('wizard') is False:
+            ty['info']['wizard'] = True
+        _force_cascading_meta(rng, ty, p_ts=0.7)
+        for node in infos.values():
+            if node['info'].get('wizard') in (True, 'py') and (node is ty or rng.random() < 0.4):
+                names = rng.choice([['DumpMixin'], ['DumpMixin'], ['LoadMixin', 'DumpMixin'], ['DumpMixin', 'LoadMixin']])
+                node['info']['mixins'] = {'names': names, 'pos': rng.choice(['pre', 'post'])}
+        return ty, {'route': 'own-dumper'}
+    g = {}
+    while not g:
+        for k, vals, p in GLOBAL_META_SETTINGS:
+            if rng.random() < p:
+                g[k] = rng.choice(vals)
+    when = rng.choice(['before-classes', 'after-classes'])
+    for node in infos.values():
+        info = node['info']
+        if when == 'after-classes':
+            # claimed for classes whose dumper does not exist yet when the global Meta is declared: binding a Meta of its own
+            # (an inner Meta, JSONPyWizard's pre-bound DumpMeta) creates the class's dumper on the spot, and the order of two
+            # bindings is not documented
+            info['meta'] = None
+            if info.get('wizard') == 'py':
+                info['wizard'] = True
+        elif g.get('marshal_date_time_as') == 'TIMESTAMP' and (info.get('meta') or {}).get('marshal_date_time_as') == 'ISO_FORMAT':
+            # kept out: recorded finding findings/explicit-iso-format-under-global-timestamp.py (the class's explicit ISO_FORMAT is
+            # a no-op in bind_to, the dumper created for it inherits the process-wide TIMESTAMP encoders)
+            del info['meta']['marshal_date_time_as']
+        if when == 'before-classes' and g.get('key_transform_with_dump') and info.get('wizard') == 'py' and info.get('meta') is not None:
+            # kept out: recorded finding findings/pywizard-inner-meta-takes-global-key-transform.py (a JSONPyWizard class with an
+            # inner Meta: the inner Meta inherits the process-wide key transform and is bound after JSONPyWizard's own NONE)
+            info['wizard'] = True
+    return ty, {'route': 'global', 'meta': g, 'when': when}
+
+
+class _Rec:
+    """stands in for the Ctx inside a forked child: records what the case did, the parent repeats it on the real Ctx"""
+
+    def __init__(self):
+        self.events, self.notes = [], {}
+
+    def count(self, kind, n=1):
+        self.events.append(('count', kind, n))
+
+    def begin_case(self, i):
+        return True
+
+    def seen(self, kind, case, nontrivial=True):
+        self.events.append(('seen', kind, case, nontrivial))
+
+    def fail(self, kind, case, what, key=None, detail=None):
+        self.events.append(('fail', kind, case, what, key, detail))
+
+
+def _declare_global_meta(g):
+    src = ('from dataclass_wizard import JSONWizard\nclass GlobalMeta(JSONWizard.Meta):\n'
+           + ''.join(f'    {k} = {v}\n' for k, v in model.meta_items(g)))
+    import types
+    mod = types.ModuleType(model.fresh('dwv_global_'))
+    exec(compile(src, f'<{mod.__name__}>', 'exec', dont_inherit=True), mod.__dict__)
+    return src
+
+
+class _BuiltAfter(model.Built):
+    """the classes exist (unused) before the global Meta is declared"""
+
+    def __init__(self, ty, g):
+        super().__init__(ty)
+        self.source += '\n# ---- declared afterwards, in a module of its own:\n' + _declare_global_meta(g)
+
+
+def run_global_case(ctx, i, ty, rng, spec, tz, kind):
+    """one case under a process-wide Meta, in a forked child (the parent's library state is untouched)"""
+    import pickle
+    import traceback
+    r, w = os.pipe()
+    pid = os.fork()
+    if pid == 0:
+        code = 0
+        try:
+            os.close(r)
+            import logging
+            logging.disable(logging.CRITICAL)
+            rec = _Rec()
+            g = spec['meta']
+            orig = model.Built
+            try:
+                if spec['when'] == 'before-classes':
+                    gsrc = _declare_global_meta(g)
+                    model.Built = type('_BuiltBefore', (orig,), {'__init__': lambda self, t: (orig.__init__(self, t), setattr(
+                        self, 'source', '# ---- declared before, in a module of its own:\n' + gsrc + self.source))[0]})
+                else:
+                    model.Built = lambda t: _BuiltAfter(t, g)
+                LocalRef.global_meta = g
+                with local_tz(tz):
+                    _run_case(rec, i, ty, rng, [], [], tz, (), kind, None, route=spec)
+            finally:
+                model.Built = orig
+            data = pickle.dumps((rec.events, rec.notes))
+        except BaseException:
+            data = pickle.dumps(([('error', traceback.format_exc()[-1500:])], {}))
+            code = 1
+        try:
+            with os.fdopen(w, 'wb') as f:
+                f.write(data)
+        finally:
+            os._exit(code)
+    os.close(w)
+    with os.fdopen(r, 'rb') as f:
+        data = f.read()
+    os.waitpid(pid, 0)
+    events, notes = pickle.loads(data)
+    ctx.current = i
+    for ev in events:
+        if ev[0] == 'count':
+            ctx.count(ev[1], ev[2])
+        elif ev[0] == 'seen':
+            ctx.seen(ev[1], ev[2], nontrivial=ev[3])
+        elif ev[0] == 'fail':
+            ctx.fail(ev[1], ev[2], ev[3], key=ev[4], detail=ev[5])
+        else:
+            raise RuntimeError('C03 global-Meta child failed:\n' + ev[1])
+    for k, v in notes.items():
+        ctx.notes.setdefault(k, []).extend(v)
+
+
 def run_case(ctx, i, ty, rng, reqs, pend, tz=None, pre=(), kind='dump', first=None):
     """one case = (class model, history, instance, local time zone `tz`); history = stand-alone dumps of the nested classes
     `pre`, or (`first`, see harness/failfirst.py) uses of the class that come before a class it names is defined"""
@@ -472,7 +616,7 @@ def run_case(ctx, i, ty, rng, reqs, pend, tz=None, pre=(), kind='dump', first=No
         _run_case(ctx, i, ty, rng, reqs, pend, tz, pre, kind, first)
 
 
-def _run_case(ctx, i, ty, rng, reqs, pend, tz, pre, kind, first=None):
+def _run_case(ctx, i, ty, rng, reqs, pend, tz, pre, kind, first=None, route=None):
     try:
         built = model.Built(ty) if first is None else failfirst.StagedBuilt(ty, first['deferred'])
     except Exception as e:   # the generator produced an unbuildable class: a harness bug, not a finding
@@ -498,6 +642,8 @@ def _run_case(ctx, i, ty, rng, reqs, pend, tz, pre, kind, first=None):
             ctx.count('failed_first:' + ('failed' if any(o_ != 'ok' for _u, o_ in early) else 'did-not-fail'))
         if tz is not None:
             case['tz'] = tz
+        if route is not None:
+            case['config_route'] = route
         from dataclass_wizard import asdict
         # ---- history: nested classes dumped on their own before the first dump of the main class
         if pre:
@@ -552,7 +698,7 @@ def _run_case(ctx, i, ty, rng, reqs, pend, tz, pre, kind, first=None):
                 if not ref.same_typed(x, before):
                     ctx.fail('dump:side-effect', case, 'the instance changed during asdict', detail=dict(src=built.source))
         # ---- model (class objects are outside the value grammar of the Lean model: oracle only)
-        if kind == 'class-objects':
+        if kind == 'class-objects' or (route or {}).get('route') == 'global':
             return
         st = model.StdTables()
         st.add_py(x)
@@ -605,7 +751,7 @@ def run(ctx: C.Ctx):
     _check_full_key_funcs()
     for fam, count in (('catch-all', ctx.quick(450, 6000)), ('standalone-first', ctx.quick(450, 6000)), ('local-tz', ctx.quick(350, 5000)),
                        ('key-names', ctx.quick(400, 5000)), ('failed-first', ctx.quick(400, 5000)),
-                       ('class-objects', ctx.quick(400, 5000))):
+                       ('class-objects', ctx.quick(400, 5000)), ('config-route', ctx.quick(400, 5000))):
         for j in range(count):
             idx = base + j
             if ctx.done(idx):
@@ -620,6 +766,15 @@ def run(ctx: C.Ctx):
                 run_case(ctx, idx, ty, crng, reqs, pend, kind=fam, first=spec)
             elif fam == 'key-names':
                 run_case(ctx, idx, make_key_name_case(crng), crng, reqs, pend, kind=fam)
+            elif fam == 'config-route':
+                ty, spec = make_route_case(crng)
+                tz = TZS[j % len(TZS)] if j % 3 == 2 else None
+                if spec['route'] == 'global':
+                    if ctx.begin_case(idx):
+                        run_global_case(ctx, idx, ty, crng, spec, tz, fam)
+                else:
+                    with local_tz(tz):
+                        _run_case(ctx, idx, ty, crng, reqs, pend, tz, (), fam, None, route=spec)
             elif fam == 'class-objects':
                 run_case(ctx, idx, make_class_object_case(crng), crng, reqs, pend, kind=fam)
             elif fam == 'standalone-first':
